@@ -126,6 +126,8 @@ BATTERIES['Functions'] = [
   ('RangesFunction', 'concat (map (fun x => concat (map (fun rg => enc_s (@M@.RangesFunction_call rg [fobjA 1; fobjA 2; fobjA (-1)] x) ++ enc_v (@M@.RangesFunction_deriv rg [fobjA 1; fobjA 2; fobjA (-1)] x)) '
                      '[[(0%nat, 3%nat)]; [(0%nat, 1%nat); (1%nat, 3%nat)]; [(0%nat, 1%nat); (1%nat, 2%nat); (2%nat, 3%nat)]; [(0%nat, 2%nat); (2%nat, 2%nat); (2%nat, 3%nat)]; []])) [va; vb; vc])'),
   ('ADevice', 'concat (map (fun x => concat (map (fun p => enc_s (@M@.ADevice_cost (fobjA 1) x p) ++ enc_v (@M@.ADevice_deriv (fobjA 2) x p) ++ enc_m (@M@.ADevice_hess (fobjA (-1)) x p)) [va; vb; [0; 0; 0]])) [va; vb; vc])'),
+  ('CDevice2', 'concat (map (fun cbs => concat (map (fun x => enc_s (@M@.CDevice2_cost 3 (-2) (-(1#2)) cbs x vb) ++ enc_v (@M@.CDevice2_deriv 3 (-2) (-(1#2)) cbs x vb) ++ enc_s (f_call (@M@.CDevice2_cost_fn (-1) 0 cbs) x)) [va; vb; vc])) '
+               '[[(1, 4, 0%nat, 3%nat)]; [(0, 2, 0%nat, 1%nat); (-1, 3, 1%nat, 3%nat)]; [(0, 1, 0%nat, 1%nat); (1, 2, 1%nat, 2%nat); (-3, 0, 2%nat, 3%nat)]; [(1, 4, 0%nat, 2%nat); (1, 4, 2%nat, 3%nat)]])'),
 ]
 BND = '[(0, 2); (1, 1); (-1, 3)]'
 BATTERIES['Classes'] = [
@@ -219,6 +221,8 @@ BATTERIES['Utils'] = [
               'List.concat (map (fun pc => List.concat (map (fun x => enc_s (pb_fun (@M@.project_problem_gen pc) x) ++ enc_v (pb_jac (@M@.project_problem_gen pc) x)) [va; vb; vc; vd]) ++ '
               'enc_v (pb_x0 (@M@.project_problem_gen pc)) ++ enc_cube (pb_bounds (@M@.project_problem_gen pc)) ++ enc_n (List.length (pb_cons (@M@.project_problem_gen pc))) ++ '
               'enc_v (o_x (@M@.project_gen (fun pb => Build_optresult true 0%Z (pb_jac pb (pb_x0 pb))) pc))) pcs)'),
+  ('zmm', 'List.concat (map (fun x => List.concat (map (fun ar => enc_m (@M@.zmm_rows_gen x (fst ar) (snd ar) None) ++ enc_m (@M@.zmm_rows_gen x (fst ar) (snd ar) (Some (fun blk => map (fun v => 2 * v + 1) (List.concat blk))))) [(0%nat, 1%nat); (1%nat, 2%nat); (0%nat, 3%nat); (2%nat, 0%nat); (2%nat, 1%nat)]) ++ '
+            'List.concat (map (fun k => enc_m (@M@.zmm_col_gen x k None) ++ enc_m (@M@.zmm_col_gen x k (Some (fun c => map (fun v => v - 1) c))) ++ enc_m (@M@.zmm_col_gen x k (Some (fun _ => [7; 8; 9])))) [0%nat; 1%nat; 2%nat])) [m33; m32 ++ [[5; 6]]])'),
 ]
 LOADERS = '''
 From Coq Require Import String.
